@@ -574,6 +574,7 @@ def r_resolution_map(chk, P, tier):
     dates = []
     for y in (years[::3] if quick else years):
         dates += [(y, 1, 1), (y, 1, 4), (y, 2, 28), (y, 3, 1), (y, 12, 28), (y, 12, 31)] + ([(y, 2, 29)] if cal.leap(y) else [])
+    dates += [(1900, 2, 28), (1900, 3, 1), (2100, 2, 28), (2100, 12, 31)]
     dates += [(1969, 12, 31), (1970, 1, 1), (2069, 12, 31), (2070, 1, 1), (0, 1, 1), (0, 12, 31), (-1, 12, 31), (12345, 6, 7), (1999, 12, 31), (2000, 1, 1)]
     bad = {}
     n_ok = [0]
